@@ -207,9 +207,9 @@ var malCases = []malCase{
 	}},
 	{"provide", "unexported-field", func(m *Mal) malCall {
 		tags := []string{"", `ignore-unexported:"true"`, `ignore-unexported:"false"`, `ignore-unexported:"perhaps"`, `ignore-unexported:""`}
+		hidden := hiddenField(m.Arg / 8)
 		t, err := structOf(inType, true, tags[pick(m, len(tags))],
-			reflect.StructField{Name: "F", Type: m0T},
-			reflect.StructField{Name: "hidden", PkgPath: "digsim", Type: m1T})
+			reflect.StructField{Name: "F", Type: m0T}, hidden)
 		if err != nil {
 			return malCall{fn: errMalUnbuildable}
 		}
@@ -217,15 +217,23 @@ var malCases = []malCase{
 	}},
 	{"invoke", "unexported-field", func(m *Mal) malCall {
 		tags := []string{"", `ignore-unexported:"true"`, `ignore-unexported:"perhaps"`}
-		t, err := structOf(inType, true, tags[pick(m, len(tags))],
-			reflect.StructField{Name: "hidden", PkgPath: "digsim", Type: m1T})
+		t, err := structOf(inType, true, tags[pick(m, len(tags))], hiddenField(m.Arg/8))
 		if err != nil {
 			return malCall{fn: errMalUnbuildable}
 		}
 		return malCall{fn: fnOf([]reflect.Type{t}, nil)}
 	}},
 	{"provide", "unexported-out-field", func(m *Mal) malCall {
-		t, err := structOf(outType, true, "", reflect.StructField{Name: "hidden", PkgPath: "digsim", Type: m1T})
+		hf := reflect.StructField{Name: "hidden", PkgPath: "digsim", Type: m1T}
+		switch (m.Arg / 8) % 4 {
+		case 1:
+			hf.Tag = `group:"mg"`
+		case 2:
+			hf.Type, hf.Tag = reflect.SliceOf(m1T), `group:"mg,flatten"`
+		case 3:
+			hf.Tag = `name:"a"`
+		}
+		t, err := structOf(outType, true, "", hf)
 		if err != nil {
 			return malCall{fn: errMalUnbuildable}
 		}
@@ -342,6 +350,26 @@ func init() {
 		malCases = append(malCases, randomSigCase(api))
 		malIndex[api+"/random-sig"] = len(malCases) - 1
 	}
+}
+
+// hiddenField draws an unexported field: plain, or carrying one of the tags
+// dig interprets (a tag must not let an unexported field slip past the
+// "unexported fields not allowed" check).
+func hiddenField(arg int) reflect.StructField {
+	f := reflect.StructField{Name: "hidden", PkgPath: "digsim", Type: m1T}
+	switch arg % 6 {
+	case 1:
+		f.Type, f.Tag = reflect.SliceOf(m0T), `group:"mg"`
+	case 2:
+		f.Type, f.Tag = reflect.SliceOf(m0T), `group:"mg,soft"`
+	case 3:
+		f.Tag = `optional:"true"`
+	case 4:
+		f.Tag = `name:"a"`
+	case 5:
+		f.Type, f.Tag = msT, `group:"mg"`
+	}
+	return f
 }
 
 var nonFuncs = []interface{}{42, "x", struct{}{}, &M0{}, []int{1}, map[string]int{}, 3.5, true, new(int), [2]int{}, MS0{}, fmt.Errorf("e"), dig.In{}, &dig.Out{}}
